@@ -179,64 +179,113 @@ fn one_case(prop: &str, g: &mut Gen, cx: &mut Ctx) {
     let ji = j as i32;
     match prop {
         "C01" | "C02" | "C03" | "C04" | "C11" | "C15" => {
+            // each property checks only its own clauses (DESIGN.md 0.6)
+            let is = |p: &str| prop == p;
+            if is("C02") && matches!(oc, OCal::Reforming(_)) || is("C03") && !matches!(oc, OCal::Reforming(_)) {
+                return;
+            }
             let d = cal.at_jdn(ji);
             let (y, m, dd, ord, dord) = describe(&oc, j);
-            cx.check(i64::from(d.julian_day_number()) == j, || format!("{ct} at_jdn({j}).jdn = {}", d.julian_day_number()));
-            cx.check(
-                i64::from(d.year()) == y && d.month().number() == m && i64::from(d.day()) == dd,
-                || format!("{ct} at_jdn({j}) label {}-{}-{} expected {y}-{m}-{dd}", d.year(), d.month().number(), d.day()),
-            );
-            cx.check(i64::from(d.ordinal()) == ord && i64::from(d.day_ordinal()) == dord, || {
-                format!("{ct} at_jdn({j}) ordinal {} day_ordinal {} expected {ord} {dord}", d.ordinal(), d.day_ordinal())
-            });
-            cx.check(d.ordinal0() + 1 == d.ordinal() && d.day_ordinal0() + 1 == d.day_ordinal(), || format!("{ct} {j} zero-based ordinals"));
-            cx.check(cal.at_ymd(d.year(), d.month(), d.day()) == Ok(d), || format!("{ct} at_ymd of at_jdn({j}) differs"));
-            cx.check(cal.at_ordinal_date(d.year(), d.ordinal()) == Ok(d), || format!("{ct} at_ordinal_date of at_jdn({j}) differs"));
-            if let OCal::Reforming(r) = oc {
-                cx.check(d.is_julian() == (j < r) && d.is_gregorian() == (j >= r), || format!("{ct} {j} style flags"));
+            if is("C01") || is("C02") || is("C03") {
+                cx.check(i64::from(d.julian_day_number()) == j, || format!("{ct} at_jdn({j}).jdn = {}", d.julian_day_number()));
+            }
+            if is("C02") || is("C03") {
+                cx.check(
+                    i64::from(d.year()) == y && d.month().number() == m && i64::from(d.day()) == dd,
+                    || format!("{ct} at_jdn({j}) label {}-{}-{} expected {y}-{m}-{dd}", d.year(), d.month().number(), d.day()),
+                );
+            }
+            if is("C04") {
+                cx.check(i64::from(d.ordinal()) == ord && i64::from(d.day_ordinal()) == dord, || {
+                    format!("{ct} at_jdn({j}) ordinal {} day_ordinal {} expected {ord} {dord}", d.ordinal(), d.day_ordinal())
+                });
+                cx.check(d.ordinal0() + 1 == d.ordinal() && d.day_ordinal0() + 1 == d.day_ordinal(), || format!("{ct} {j} zero-based ordinals"));
+            }
+            if is("C01") {
+                cx.check(cal.at_ymd(d.year(), d.month(), d.day()).map(|x| x.julian_day_number()) == Ok(ji), || format!("{ct} at_ymd of at_jdn({j}) does not lead back"));
+                cx.check(cal.at_ordinal_date(d.year(), d.ordinal()).map(|x| x.julian_day_number()) == Ok(ji), || format!("{ct} at_ordinal_date of at_jdn({j}) does not lead back"));
+            }
+            if is("C03") {
+                if let OCal::Reforming(r) = oc {
+                    cx.check(d.is_julian() == (j < r) && d.is_gregorian() == (j >= r), || format!("{ct} {j} style flags"));
+                }
             }
             if j < I32_MAX {
                 let e = cal.at_jdn(ji + 1);
-                cx.check(
-                    (d.year(), d.month(), d.day()) < (e.year(), e.month(), e.day()) && (d.year(), d.ordinal()) < (e.year(), e.ordinal()),
-                    || format!("{ct} labels not increasing at {j}"),
-                );
-                cx.check(d < e && d != e, || format!("{ct} dates not increasing at {j}"));
-                let (y2, ..) = oc.label(j + 1);
-                if y2 != y {
-                    cx.check(d.ordinal() == cal.year_length(d.year()), || {
-                        format!("{ct} last day of {y} has ordinal {} but year_length {}", d.ordinal(), cal.year_length(d.year()))
-                    });
+                if is("C01") {
+                    cx.check((d.year(), d.month(), d.day()) != (e.year(), e.month(), e.day()), || format!("{ct} days {j} and {} share a label", j + 1));
+                }
+                if is("C11") {
+                    cx.check(
+                        (d.year(), d.month(), d.day()) < (e.year(), e.month(), e.day()) && (d.year(), d.ordinal()) < (e.year(), e.ordinal()),
+                        || format!("{ct} labels not increasing at {j}"),
+                    );
+                    cx.check(d < e && d != e, || format!("{ct} dates not increasing at {j}"));
+                }
+                if is("C04") {
+                    let (y2, ..) = oc.label(j + 1);
+                    if y2 != y {
+                        cx.check(d.ordinal() == cal.year_length(d.year()), || {
+                            format!("{ct} last day of {y} has ordinal {} but year_length {}", d.ordinal(), cal.year_length(d.year()))
+                        });
+                    }
                 }
             }
-            cx.check(i64::from(d.weekday().number()) == j.rem_euclid(7) + 1, || format!("{ct} weekday of {j}"));
+            if is("C15") {
+                cx.check(i64::from(d.weekday().number()) == j.rem_euclid(7) + 1, || format!("{ct} weekday of {j}"));
+            }
         }
         "C06" | "C10" | "C13" => {
+            let is = |p: &str| prop == p;
             let d = cal.at_jdn(ji);
             let s = d.succ();
             let p = d.pred();
+            if is("C06") {
+                cx.check(s.map_or(true, |x| canon_ok(&x)) && p.map_or(true, |x| canon_ok(&x)), || format!("{ct} succ/pred of {j} not canonical: {s:?} {p:?}"));
+            }
+            if is("C10") {
             cx.check(s.is_none() == (j == I32_MAX) && s.map_or(true, |x| x == cal.at_jdn(ji + 1)), || format!("{ct} succ of {j}: {s:?}"));
             cx.check(p.is_none() == (j == I32_MIN) && p.map_or(true, |x| x == cal.at_jdn(ji - 1)), || format!("{ct} pred of {j}: {p:?}"));
+            }
             let n = g.rng.below(20) as usize;
             let mut expect = j;
             for x in d.later().take(n) {
                 expect += 1;
-                cx.check(i64::from(x.julian_day_number()) == expect && canon_ok(&x), || format!("{ct} later from {j}: item at {expect} is {x:?}"));
+                if is("C10") {
+                    cx.check(i64::from(x.julian_day_number()) == expect && x == cal.at_jdn(expect as i32), || format!("{ct} later from {j}: item at {expect} is {x:?}"));
+                }
+                if is("C06") {
+                    cx.check(canon_ok(&x), || format!("{ct} later from {j}: item {x:?} not canonical"));
+                }
             }
             let mut expect = j;
             for x in d.earlier().take(n) {
                 expect -= 1;
-                cx.check(i64::from(x.julian_day_number()) == expect && canon_ok(&x), || format!("{ct} earlier from {j}: item at {expect} is {x:?}"));
+                if is("C10") {
+                    cx.check(i64::from(x.julian_day_number()) == expect && x == cal.at_jdn(expect as i32), || format!("{ct} earlier from {j}: item at {expect} is {x:?}"));
+                }
+                if is("C06") {
+                    cx.check(canon_ok(&x), || format!("{ct} earlier from {j}: item {x:?} not canonical"));
+                }
             }
-            cx.check(d.and_later().next() == Some(d) && d.and_earlier().next() == Some(d), || format!("{ct} and_later/and_earlier start at {j}"));
-            if let Some(lj) = cal.last_julian_date() {
+            if is("C10") {
+                cx.check(d.and_later().next() == Some(d) && d.and_earlier().next() == Some(d), || format!("{ct} and_later/and_earlier start at {j}"));
+            }
+            if !is("C06") && !is("C13") {
+                return;
+            }
+            if let Some(lj) = cal.last_julian_date().filter(|_| is("C06")) {
                 cx.check(canon_ok(&lj), || format!("{ct} last_julian_date not canonical: {lj:?}"));
             }
-            if let Some(fg) = cal.first_gregorian_date() {
+            if let Some(fg) = cal.first_gregorian_date().filter(|_| is("C06")) {
                 cx.check(canon_ok(&fg), || format!("{ct} first_gregorian_date not canonical: {fg:?}"));
             }
             let text = d.to_string();
             let parsed = cal.parse_date(&text);
+            if is("C06") {
+                cx.check(parsed.as_ref().ok().map_or(true, canon_ok), || format!("{ct} parse(format) of {j} not canonical: {parsed:?}"));
+                return;
+            }
             cx.check(parsed.as_ref().ok() == Some(&d), || format!("{ct} parse(format) of {j}: {parsed:?}"));
             let alt = format!("{d:#}");
             let parsed = cal.parse_date(&alt);
@@ -299,15 +348,25 @@ fn one_case(prop: &str, g: &mut Gen, cx: &mut Ctx) {
         "C08" | "C09" => {
             let y = g.year(&oc);
             let n = oc.year_span(y).map_or(0, |(a, b)| b - a + 1);
+            let is = |p: &str| prop == p;
             let len = i64::from(cal.year_length(y as i32));
-            cx.check(len == n, || format!("{ct} year_length({y}) = {len}, counted {n}"));
+            if is("C08") {
+                cx.check(len == n, || format!("{ct} year_length({y}) = {len}, counted {n}"));
+            }
             let mut sum = 0;
             for m in 1..=12u32 {
                 let days: Vec<i64> = (1..=31).filter(|&x| oc.find(y, m, x).is_some()).collect();
                 match cal.month_shape(y as i32, month(m)) {
-                    None => cx.check(days.is_empty(), || format!("{ct} month_shape({y},{m}) = None but days {days:?}")),
+                    None => {
+                        if is("C09") {
+                            cx.check(days.is_empty(), || format!("{ct} month_shape({y},{m}) = None but days {days:?}"))
+                        }
+                    }
                     Some(s) => {
                         sum += i64::from(s.len());
+                        if !is("C09") {
+                            continue;
+                        }
                         let got: Vec<i64> = s.days().map(i64::from).collect();
                         cx.check(got == days, || format!("{ct} month_shape({y},{m}).days() = {got:?}, expected {days:?}"));
                         let mut rev: Vec<i64> = s.days().rev().map(i64::from).collect();
@@ -349,6 +408,9 @@ fn one_case(prop: &str, g: &mut Gen, cx: &mut Ctx) {
                         cx.check(s.dates().all(|d| canon_ok(&d)), || format!("{ct} month_shape({y},{m}).dates() not canonical"));
                     }
                 }
+            }
+            if !is("C08") {
+                return;
             }
             cx.check(sum == len, || format!("{ct} year {y}: months sum to {sum}, year_length {len}"));
             // year kind
